@@ -26,7 +26,7 @@ ASSUMPTIONS = ["other inputs use names disjoint from the input under test so tha
                "hash-seed runs use the real interpreter as a subprocess; all other runs are in-process"]
 BUDGET = {"quick": {"shards": 8, "examples": 50}, "thorough": {"shards": 16, "examples": 800}}
 
-STEPS = ["cwd-inside-sub", "same", "cwd-rel", "cwd-dotslash", "cwd-updown", "cwd-dot", "moved", "order", "hashseed", "others-before",
+STEPS = ["prefilled-output", "cwd-inside-sub", "same", "cwd-rel", "cwd-dotslash", "cwd-updown", "cwd-dot", "moved", "order", "hashseed", "others-before",
          "others-after", "others-both", "api-successive"]
 
 
@@ -45,7 +45,7 @@ def strategy(tier):
 
 def G_weighted_steps():
     from vlib import gen_cmake as G
-    return G.weighted((2, st.sampled_from(["same", "order"])),
+    return G.weighted((2, st.sampled_from(["prefilled-output", "same", "order"])),
                       (5, st.sampled_from(["cwd-rel", "cwd-dotslash", "cwd-updown", "cwd-dot", "moved", "cwd-inside-sub"])),
                       (3, st.sampled_from(["others-before", "others-after", "others-both", "api-successive"])),
                       (1, st.just("hashseed")))
@@ -119,7 +119,15 @@ def evaluate(case):
             out = sb.path(f"out{i + 1}")
             multi = False
             try:
-                if kind == "same":
+                if kind == "prefilled-output":
+                    # a used output directory: every file of the baseline is already there, longer and different
+                    for path, data in base.items():
+                        pth = os.path.join(out, path)
+                        os.makedirs(os.path.dirname(pth), exist_ok=True)
+                        with open(pth, "wb") as fh:
+                            fh.write(b"STALE\n" + data + b"\nstale tail line\n" * 40)
+                    run(args_for(input_abs(home), out), sb.path("cwd"))
+                elif kind == "same":
                     run(args_for(input_abs(home), out), sb.path("cwd"))
                 elif kind == "order":
                     run(args_for(input_abs(home), out), sb.path("cwd"), order=order)
@@ -185,7 +193,7 @@ def evaluate(case):
                 continue
             got = S.read_tree(out) if os.path.isdir(out) else {}
             for path, data in base.items():
-                if multi and path == "index.rst" and not lone:
+                if multi and path == "index.rst" and not lone and kind != "others-before":
                     shared_excluded += 1
                     continue
                 if path not in got:
@@ -207,7 +215,7 @@ def evaluate(case):
         res.labels.append("input:" + ("lone-file" if lone else "directory"))
         if shared_excluded:
             res.labels.append("shared-top-index-excluded")
-        special = {"cwd-inside-sub", "moved", "cwd-rel", "cwd-dotslash", "cwd-updown", "cwd-dot", "others-before", "others-both", "api-successive"}
+        special = {"prefilled-output", "cwd-inside-sub", "moved", "cwd-rel", "cwd-dotslash", "cwd-updown", "cwd-dot", "others-before", "others-both", "api-successive"}
         res.nontrivial = len(set(kinds)) >= 2 and bool(set(kinds) & special)
         if res.nontrivial:
             res.sample = {"files": files, "lone": lone, "prefix": case["prefix"], "history": [h[0] for h in case["history"]]}
